@@ -202,23 +202,20 @@ def firstBelowLast (blks : List GBlock) : Except Exc Bool :=
     | _, _ => .error .typeError
   | _, _ => .error .indexError
 
-/-- first connection of `ob` with direction `pd`:
-    `[con for con in ob.connection_name if grid.connection[con].direction == pd][0]` -/
-def firstConnIn (T : TGrid) (ob : Str) (pd : Nat) : Except Exc GConn :=
-  match ((connsOf T ob).filter (fun c => c.dirn = pd)).head? with
-  | some c => .ok c
+/-- the origin block's own size in a present direction: `spacings[pd][0] if pd < 3 else
+    spacings[pd][-1]` (it is first along directions 1 and 2 and in the bottom layer) -/
+def ownSpacing (s1 s2 s3 : List Rat) (pd : Nat) : Except Exc Rat :=
+  match (if pd = 1 then s1.head? else if pd = 2 then s2.head? else s3.getLast?) with
+  | some x => .ok x
   | none => .error .indexError
 
-/-- `d /= 2 * distance[i]` over the present directions -/
-def missingSpacing (T : TGrid) (ob : GBlock) : List Nat → Rat → Except Exc Rat
+/-- `d /= spacings[pd][...]` over the present directions -/
+def missingSpacing (s1 s2 s3 : List Rat) : List Nat → Rat → Except Exc Rat
   | [], d => .ok d
   | pd :: rest, d =>
-    match firstConnIn T ob.name pd with
+    match ownSpacing s1 s2 s3 pd with
     | .error e => .error e
-    | .ok c =>
-      match conDist c ob.name with
-      | .error e => .error e
-      | .ok x => missingSpacing T ob rest (d / (2 * x))
+    | .ok x => missingSpacing s1 s2 s3 rest (d / x)
 
 /-- `block_spacings(grid, ob, max_volume)`: the spacings in directions 1, 2, 3 -/
 def blockSpacings (T : TGrid) (ob : GBlock) (maxVol : Rat) : Except Exc (List Rat × List Rat × List Rat) :=
@@ -241,7 +238,7 @@ def blockSpacings (T : TGrid) (ob : GBlock) (maxVol : Rat) : Except Exc (List Ra
     let missing := (if s1.isEmpty then [1] else []) ++ (if s2.isEmpty then [2] else []) ++ (if s3.isEmpty then [3] else [])
     match missing with
     | [dm] =>
-      match missingSpacing T ob ([1, 2, 3].filter (· ≠ dm)) ob.volume with
+      match missingSpacing s1 s2 s3 ([1, 2, 3].filter (· ≠ dm)) ob.volume with
       | .error e => .error e
       | .ok d =>
         if dm = 1 then .ok ([d], s2, s3) else if dm = 2 then .ok (s1, [d], s3) else .ok (s1, s2, [d])
